@@ -75,6 +75,8 @@ TAGS = {
     37: 'add_iov: a symbol is not its value before with eta := eta + IOV eta of the occasion (requested etas only)',
     38: 'add_iov: an existing symbol got another assignment / a new symbol is declared twice',
     39: 'remove_iov(add_iov(M)) is not M',
+    47: 'add_iov: the declared IOV distributions (names per level, same covariance symbols on every occasion) differ from the model',
+    54: 'BLQ: SD**2 is not the sum of (epsilon coefficient)**2 * sigma',
     90: 'the implementation raised an exception on a documented call',
     91: 'the implementation refused (ValueError/NotImplementedError) a valid documented request',
 }
@@ -667,9 +669,37 @@ def build_iov(spec, rng):
             e[nm] = F(v if rng.random() < 0.7 else -v)
     # documented names of the declared symbols: IOV_<n>, ETAI<n> with the n of the IOV etas
     items_t = ct.lst([ct.pair(names.p(f'IOV_{n}'), names.p(f'ETAI{n}')) for n in sorted(byn)])
-    term = "(CIov (mkIov %s\n %s\n %s\n %s %s\n %s %s %s))" % (before_t, after_t, ct.opt(removed_t), names.p(occ), etas_t,
-                                                                ct.lst([names.p(x) for x in syms]), envs_term(envs, names),
-                                                                items_t)
+    # declared distributions: documented names ETA_IOV_<n>_<k>, OMEGA_IOV_<n> (variance), OMEGA_IOV_<n>_<j> (covariance i < j)
+    ns = sorted(byn)
+    dist = last.get('distribution', 'disjoint')
+    if dist == 'disjoint':
+        groups = [[i] for i in range(1, len(ns) + 1)]
+    elif dist == 'joint':
+        groups = [list(range(1, len(ns) + 1))]
+    elif dist == 'explicit':
+        groups, pos = [], 1
+        for grp in params:
+            groups.append(list(range(pos, pos + len(grp))))
+            pos += len(grp)
+    else:
+        groups = []          # same-as-iiv: the grouping is read from the existing distributions (not compared)
+    en = [ct.tup(ct.nat(i), ct.nat(k), names.p(byn[n][k])) for i, n in enumerate(ns, 1) for k in sorted(byn[n])]
+    on = []
+    for i, n in enumerate(ns, 1):
+        on.append(ct.tup(ct.nat(i), ct.nat(i), names.p(f'OMEGA_IOV_{n}')))
+        for j in range(i + 1, len(ns) + 1):
+            on.append(ct.tup(ct.nat(i), ct.nat(j), names.p(f'OMEGA_IOV_{n}_{j}')))
+    dists = []
+    for d in after.random_variables:
+        if all(nm in newetas for nm in d.names):
+            var = sc.to_sympy(d.variance)
+            rows = [[var]] if not hasattr(var, 'shape') else [[var[a, b] for b in range(var.shape[1])] for a in range(var.shape[0])]
+            dists.append(ct.pair(ct.lst([names.p(nm) for nm in d.names]),
+                                 ct.lst([ct.lst([names.p(str(x)) for x in row]) for row in rows])))
+    term = "(CIov (mkIov %s\n %s\n %s\n %s %s\n %s %s %s\n %s %s %s %s))" % (
+        before_t, after_t, ct.opt(removed_t), names.p(occ), etas_t, ct.lst([names.p(x) for x in syms]),
+        envs_term(envs, names), items_t,
+        ct.lst([ct.lst([ct.nat(i) for i in g]) for g in groups]), ct.lst(en), ct.lst(on), ct.lst(dists))
     return term, {'kind': 'iov', 'ncalls': len(calls), 'distribution': last.get('distribution', 'disjoint')}
 
 
@@ -762,7 +792,10 @@ def build_blq(spec, rng):
     eg.rules['sigma_add'] = [F(1), F(4)]
     eg.rules[dv] = [F(0), F(1), F(2), F(3)]
     envs = eg.envs(names, 8)
-    term = "(CBlq (mkBlq %s\n %s\n %s\n %s))" % (args, before_t, after_t, envs_term(envs, names))
+    es = []
+    for d in model.random_variables.epsilons:
+        es.append(ct.pair(names.p(d.names[0]), names.p(str(sc.to_sympy(d.variance)))))
+    term = "(CBlq (mkBlq %s\n %s\n %s\n %s %s))" % (args, before_t, after_t, envs_term(envs, names), ct.lst(es))
     return term, {'kind': 'blq', 'method': spec['method']}
 
 
